@@ -233,6 +233,14 @@ def run(ctx):
                  "(before the NoSuchProcess handler), NoSuchProcess must set _gone and "
                  "answer False")
 
+    # ------------------------------------------------------------------- R6
+    ctx.rule("C03.R6", "errors carry the OBJECT's pid: inside a Process method, "
+             "building another Process (Process(x)) or querying one (a value that came "
+             "from Process(x) / .parent()) happens in a try that catches NoSuchProcess, "
+             "so a relative vanishing mid-call cannot surface as NoSuchProcess(<its "
+             "pid>) from a query on a live process", floor=5)
+    _r6(ctx, repo, A)
+
     ctx.assume("fault model as stated: errno failures (ENOENT/ESRCH/EACCES/EPERM) at "
                "any per-process OS access, and zombie state; malformed/truncated "
                "kernel text (parse errors) and system-wide file failures are outside it")
@@ -451,3 +459,53 @@ def _r4(ctx, repo, A, pm):
                              f"'null' answer instead of ZombieProcess")
     ctx.require(found >= 3, f"only {found} empty-content returns found (cmdline, "
                 f"memory_maps, _readlink fallback expected)")
+
+
+def _r6(ctx, repo, A):
+    from ..core.astutil import enclosing_trys, handler_catches
+    n = 0
+    for fi in repo.all_funcs("psutil"):
+        if fi.cls != "Process" or fi.parent is not None:
+            continue
+        if fi.name in ("__init__", "_init"):
+            continue
+        foreign = set()
+        # fix-point: names bound to another Process object
+        changed = True
+        while changed:
+            changed = False
+            for st in ast.walk(fi.node):
+                if not isinstance(st, ast.Assign) or not isinstance(st.value, ast.Call):
+                    continue
+                c = st.value
+                is_ctor = dotted(c.func) == "Process"
+                is_parent = isinstance(c.func, ast.Attribute) and c.func.attr == "parent"
+                if is_ctor or is_parent:
+                    for t in st.targets:
+                        if isinstance(t, ast.Name) and t.id not in foreign:
+                            foreign.add(t.id)
+                            changed = True
+        sites = []
+        for c in calls_in(fi.node):
+            if dotted(c.func) == "Process":
+                # Process(self.pid) is the object's own pid: its NoSuchProcess is about it
+                if c.args and dotted(c.args[0]) in ("self.pid", "self._pid"):
+                    continue
+                sites.append((c, f"Process({norm_stmt(c.args[0]) if c.args else ''})"))
+            elif isinstance(c.func, ast.Attribute) and isinstance(c.func.value, ast.Name) \
+                    and c.func.value.id in foreign and c.func.value.id != "self":
+                sites.append((c, norm_stmt(c)))
+        for c, what in sites:
+            n += 1
+            key = f"{fi.qual}:{what}"
+            trys = enclosing_trys(fi.node, c)
+            caught = any(handler_catches(h, ["NoSuchProcess"]) for t in trys for h in t.handlers)
+            if caught:
+                ctx.ok("C03.R6", key, sample=f"{fi.qual}: `{what}` under except NoSuchProcess")
+            else:
+                ctx.fail("C03.R6", key, fi.file, c.lineno, fi.qual,
+                         f"`{what}` concerns ANOTHER process and is not inside a try "
+                         f"catching NoSuchProcess: if that process vanishes mid-call, "
+                         f"{fi.name}() on a live process raises NoSuchProcess carrying the "
+                         f"other process's pid")
+    ctx.require(n >= 5, f"only {n} foreign-process sites found in psutil.Process")
